@@ -152,9 +152,8 @@ class FusionART(BaseART):
         """
         for k in range(self.n):
             if len(new_W) > 0:
-                self.modules[k].W = new_W[
-                    self._channel_indices[k][0] : self._channel_indices[k][1]
-                ]
+                start, end = self._weight_indices[k]
+                self.modules[k].W = [np.asarray(w)[start:end] for w in new_W]
             else:
                 self.modules[k].W = []
                 self.modules[k].weight_sample_counter_ = []
